@@ -154,6 +154,17 @@ pub fn value_ok(a: &ArgSpec, v: &[u8]) -> Result<(), &'static str> {
             }
             Err(_) => Err("non-utf8"),
         },
+        ValParser::Int { w, range } => match s {
+            Ok(t) => {
+                let (lo, hi) = w.language(*range);
+                if dec_in_range(t, lo, hi) {
+                    Ok(())
+                } else {
+                    Err("bad-value")
+                }
+            }
+            Err(_) => Err("non-utf8"),
+        },
         ValParser::U16 => match s {
             Ok(t) => {
                 if dec_in_range(t, 0, 65535) {
